@@ -7,8 +7,8 @@
 //          ev: `n` the consumer calls Next() · `c<k>` f is entered on item k · `t<k>` Next() returned item k's value
 //              (`t<k>!` if key or value is not item k's) · `e:nil` / `e:<k>` / `e:other` Next() returned false with
 //              no error / the error of item k / some other error.
-// Every run happens in a child process (batches with an in-child watchdog; a run that does not return is re-run
-// alone in a fresh child with a longer timeout before it is answered `hang`).
+// Every run happens in a child process (batches with an in-child watchdog; a run that does not return within
+// 3 s + 4 ms per core is re-run alone in a fresh child with 12 s + 4 ms per core before it is answered `hang`).
 package main
 
 import (
@@ -207,7 +207,7 @@ func childBatch(arg string) string {
 		select {
 		case a := <-done:
 			out[i] = a
-		case <-time.After(time.Duration(b.TimeoutMs) * time.Millisecond):
+		case <-time.After(time.Duration(b.TimeoutMs)*time.Millisecond + time.Duration(r.Cores)*4*time.Millisecond): // starting 16384 goroutines takes seconds under load
 			out[i] = "hang"
 		}
 	}
@@ -218,7 +218,7 @@ const batchSize = 40
 
 func runBatch(runs []Run) []string {
 	arg, _ := json.Marshal(batch{Runs: runs, TimeoutMs: 3000})
-	res := hx.RunChild("batch", string(arg), 180*time.Second)
+	res := hx.RunChild("batch", string(arg), 600*time.Second)
 	lines := strings.Split(res, "\n")
 	ok := res != "hang" && res != "crash" && len(lines) == len(runs)
 	out := make([]string, len(runs))
@@ -228,7 +228,7 @@ func runBatch(runs []Run) []string {
 			continue
 		}
 		one, _ := json.Marshal(batch{Runs: runs[i : i+1], TimeoutMs: 12000})
-		a := hx.RunChild("batch", string(one), 25*time.Second)
+		a := hx.RunChild("batch", string(one), 120*time.Second)
 		if a == "crash" {
 			a = "panic"
 		}
@@ -259,12 +259,40 @@ func sweep() []Run {
 
 var sweepRuns = sweep()
 
+// Many cores, a failing item among the first three: after the failure the consumer is blocked on one of the first
+// `out` channels while run() still has thousands of channels to close — the window in which a misplaced
+// `m.err = …` (after the closes) is read as nil. Cases bigFrom … bigFrom+bigCount-1, and every 25th case after that.
+// (16384 cores cost seconds per run on a loaded machine: only every 500th case, i.e. in the thorough tier.)
+var bigCores = []int{512, 1024, 4096}
+
+const bigCount = 120
+
+func bigRun(r *hx.Rand, i int) Run {
+	run := Run{Cores: bigCores[i%3], MP: mps[1+r.Intn(len(mps)-1)], Y: r.Uint64() % 1000000}
+	run.N = 3 + r.Intn(6)
+	run.Fail = []int{(i / 3) % 3}
+	if r.Chance(1, 4) {
+		run.Fail = append(run.Fail, 1+r.Intn(run.N-1))
+	}
+	return run
+}
+
 func genRun(seed uint64, no int) Run {
 	r := caseRand(seed, no)
 	if no < len(sweepRuns) {
 		run := sweepRuns[no]
 		run.MP = mps[r.Intn(len(mps))]
 		run.Y = r.Uint64() % 1000000
+		return run
+	}
+	if no < len(sweepRuns)+bigCount {
+		return bigRun(r, no-len(sweepRuns))
+	}
+	if no%25 == 0 {
+		run := bigRun(r, no/25)
+		if no%500 == 0 {
+			run.Cores = 16384
+		}
 		return run
 	}
 	run := Run{Cores: 1 + r.Intn(16), MP: mps[r.Intn(len(mps))], Y: r.Uint64() % 1000000}
@@ -308,7 +336,12 @@ var corpus = []Run{
 }
 
 func note(c *hx.Ctx, r *Run, ans string) {
-	c.Note(fmt.Sprintf("cores:%d", r.Cores))
+	if r.Cores > 16 {
+		c.Note(fmt.Sprintf("cores:%d", r.Cores))
+		c.Note(fmt.Sprintf("many-cores-failing-item:%d", r.Fail[0]))
+	} else {
+		c.Note(fmt.Sprintf("cores:%d", r.Cores))
+	}
 	c.Note(fmt.Sprintf("mp:%d", r.MP))
 	switch {
 	case r.N < 8:
@@ -360,7 +393,7 @@ func main() {
 	var cacheSeed uint64
 	hx.Main(hx.Family{
 		Name: "c25",
-		Rule: "one evaluation of map-parallel (and of map) over the collection 0..N-1 with a registered function that logs, yields/sleeps per a seeded plan and fails on the listed items; cores 1..16, GOMAXPROCS 1/2/4/8/16, N from 0 to 60, failing: none 25%, one 45%, a few 25%, all 5%; a consumer that yields/sleeps between Next() calls; cases 0.." + fmt.Sprint(len(sweepRuns)-1) + " sweep cores 1..16 x every failing position of 7 items; non-trivial = at least 2 cores and more items than cores; distinct = by hash of the op text",
+		Rule: "one evaluation of map-parallel (and of map) over the collection 0..N-1 with a registered function that logs, yields/sleeps per a seeded plan and fails on the listed items; cores 1..16, GOMAXPROCS 1/2/4/8/16, N from 0 to 60, failing: none 25%, one 45%, a few 25%, all 5%; a consumer that yields/sleeps between Next() calls; cases 0.." + fmt.Sprint(len(sweepRuns)-1) + " sweep cores 1..16 x every failing position of 7 items; the next " + fmt.Sprint(bigCount) + " cases and every 25th case after them use 512/1024/4096 cores (16384 for every 500th case) with the first failing item at position 0, 1 or 2 (the close-before-store window); non-trivial = at least 2 cores and more items than cores; distinct = by hash of the op text",
 		Quick:    2000,
 		Thorough: 20000,
 		Corpus: func(c *hx.Ctx) {
